@@ -272,6 +272,8 @@ let parse_fs (w : string list) : (n list * n list) list * (nat * fault) list * s
   | n :: r ->
     let (files, r) = take_files (int_of_string n) r [] in
     (* first binding of a path wins *)
+    let is_dir_entry p = match List.rev p with x :: _ -> int_of_n x = 47 | [] -> false in
+    let files = List.filter (fun (p, _) -> not (is_dir_entry p)) files in
     let files = List.fold_left (fun acc (p, d) -> if List.mem_assoc p acc then acc else acc @ [(p, d)]) [] files in
     (match r with
      | m :: r ->
